@@ -846,11 +846,11 @@ inductive TzInfos where
 
 /-- the zone of the result, as a description -/
 inductive TzDescr where
-  | naive
-  | naiveWarn (name : Token)                    -- UnknownTimezoneWarning
+  | naive                                       -- no zone applied (`aware = naive`): the value of `_build_naive` as it is
+  | naiveWarn (name : Token)                    -- UnknownTimezoneWarning, `naive.replace(tzinfo=None)`
   | utc                                         -- `tz.UTC`
   | fixed (name : Option Token) (off : Int)     -- `tz.tzoffset(name, off)`
-  | localZone (name : Token)                    -- `tz.tzlocal()`; fold / UTC replacement decided by `localFinal`
+  | localZone (name : Token) (off : Option Int) -- `tz.tzlocal()` for the parsed (name, `res.tzoffset`); fold / UTC replacement decided by `localFinal`
   | viaTzinfos (d : TzData) (name : Option Token)   -- tzinfo object / tzstr / None from `tzinfos`; fold by `assignFold`
   deriving Repr, DecidableEq, Inhabited
 
@@ -933,7 +933,7 @@ def nameTruthy (n : Option Token) : Bool := match n with | some t => !t.isEmpty 
 def buildTzaware (tznames : List Token) (tzi : TzInfos) (res : Res) : R TzDescr :=
   if tzi.applies res.tzname then buildTzinfo tzi res.tzname res.tzoffset       -- tzinfos callable / mapping hit
   else if nameTruthy res.tzname && res.tzname.any tznames.contains then       -- a name of the local zone
-    .ok (.localZone (res.tzname.getD []))
+    .ok (.localZone (res.tzname.getD []) res.tzoffset)
   else if res.tzoffset = some 0 then .ok .utc                                 -- `res.tzoffset == 0`
   else match res.tzoffset with
     | some n => fixedZone res.tzname n                                        -- `elif res.tzoffset:` (non-zero)
@@ -951,12 +951,23 @@ inductive LocalFinal where
   | utc
   deriving Repr, DecidableEq
 
-/-- the local-zone row after `_assign_tzname`: GMT/UTC/Z parsed where the local zone is
-    currently called something else ⇒ `tz.UTC` -/
-def localFinal (info : Info) (n0 n1 : Option Token) (tzname : Token) : LocalFinal :=
+/-- the local-zone row after `_assign_tzname`, given what `tz.tzlocal()` reports for the wall time at fold 0 / fold 1
+    (names `n0 n1`, UTC offsets `o0 o1` in seconds):
+    * GMT/UTC/Z parsed where the local zone is currently called something else ⇒ `tz.UTC`;
+    * (since the repair of D-C15-local-zone-named-utc) the text means offset ZERO (`res.tzoffset == 0`: Z, UTC, GMT, +00:00 …)
+      but the local zone is not at offset zero for that wall time — a zone merely CALLED UTC / GMT (`TZ=UTC+3`) ⇒ `tz.UTC`. -/
+def localFinal (info : Info) (n0 n1 : Option Token) (o0 o1 : Int) (tzname : Token) (tzoffset : Option Int) : LocalFinal :=
   let f := assignFold n0 n1 (some tzname)
   let nm := if f = 1 then n1 else n0
-  if nm ≠ some tzname ∧ info.UTCZONE.contains tzname then .utc else .localFold f
+  let off := if f = 1 then o1 else o0
+  if nm ≠ some tzname ∧ info.UTCZONE.contains tzname then .utc
+  else if tzoffset = some 0 ∧ off ≠ 0 then .utc            -- `res.tzoffset == 0 and aware.utcoffset() != timedelta(0)`
+  else .localFold f
+
+/-- the UTC offset of the local row's result at its wall time -/
+def LocalFinal.offset (o0 o1 : Int) : LocalFinal → Int
+  | .utc => 0
+  | .localFold f => if f = 1 then o1 else o0
 
 /-! ### `parser.parse` -/
 
@@ -991,5 +1002,66 @@ def parseResult (cls : Char → CClass) (info : Info) (o : Opts) (tznames : List
 def parse (cls : Char → CClass) (info : Info) (o : Opts) (tznames : List Token) (tzi : TzInfos)
     (dflt : DT) (s : List Char) : R Result :=
   parseResult cls info o tznames tzi dflt (lex cls s)
+
+/-! ### the tzinfo of the returned datetime when `default=` may itself be AWARE
+
+  `_build_naive` returns `default.replace(**repl)`, which still carries `default.tzinfo`.  After the repair of
+  D-C15-aware-default-kept the last lines of `parser.parse` / `_build_tzaware` are
+
+      if not ignoretz: ret = self._build_tzaware(ret, res, tzinfos)
+      else:            ret = ret.replace(tzinfo=None)                     -- naive, whatever the default carries
+      …
+      elif not res.tzname and not res.tzoffset:  aware = naive           -- row 5: `default.tzinfo` is KEPT
+      elif res.tzname:  warn(…); aware = naive.replace(tzinfo=None)      -- row 6: naive + warning, whatever the default carries
+
+  `parseResult` (above) speaks about a naive default, where "kept" and "None" coincide (`.naive`); `FinalTz` separates them. -/
+inductive FinalTz where
+  | none                         -- `tzinfo=None`
+  | noneWarn (name : Token)      -- `tzinfo=None` + UnknownTimezoneWarning
+  | ofDefault                    -- `default.tzinfo`, untouched (None for a naive default)
+  | zone (z : TzDescr)           -- the zone rows 1–4 of `_build_tzaware` put (`.viaTzinfos .noneVal` = a tzinfos entry None: `replace(tzinfo=None)`)
+  deriving Repr, DecidableEq, Inhabited
+
+/-- the last lines of `parser.parse` -/
+def finalTz (o : Opts) (tznames : List Token) (tzi : TzInfos) (res : Res) : R FinalTz :=
+  if o.ignoretz then .ok .none
+  else match buildTzaware tznames tzi res with
+    | .ok .naive => .ok .ofDefault
+    | .ok (.naiveWarn n) => .ok (.noneWarn n)
+    | .ok z => .ok (.zone z)
+    | .error .ValueError => .error .ParserError
+    | .error e => .error e
+
+/-- reading a `FinalTz` for a NAIVE default (what `parseResult` reports) -/
+def FinalTz.forget : FinalTz → TzDescr
+  | .none => .naive
+  | .noneWarn n => .naiveWarn n
+  | .ofDefault => .naive
+  | .zone z => z
+
+structure ResultA where
+  dt : DT
+  tz : FinalTz
+  tokens : Option (List Token)
+  deriving Repr, DecidableEq, Inhabited
+
+/-- `parser.parse` for any default (its wall time `dflt`, its tzinfo left symbolic) -/
+def parseResultA (cls : Char → CClass) (info : Info) (o : Opts) (tznames : List Token) (tzi : TzInfos)
+    (dflt : DT) (l : List Token) : R ResultA := do
+  let r ← parseTokens cls info o l
+  match r with
+  | none => throw .ParserError
+  | some (res, skipped) =>
+    if res.len = 0 then throw .ParserError
+    let naive ← match buildNaive res dflt with
+      | .ok t => pure t
+      | .error .ValueError => throw PyErr.ParserError
+      | .error e => throw e
+    let tz ← finalTz o tznames tzi res
+    pure { dt := naive, tz := tz, tokens := if o.fuzzyWithTokens then skipped else none }
+
+def parseA (cls : Char → CClass) (info : Info) (o : Opts) (tznames : List Token) (tzi : TzInfos)
+    (dflt : DT) (s : List Char) : R ResultA :=
+  parseResultA cls info o tznames tzi dflt (lex cls s)
 
 end PM
